@@ -307,3 +307,36 @@ Proof. exact NumProofs.ex_div_inexact_is_float. Qed.
 
 Example ex_div_zero : numeric_do OpDiv (NInt 7) (NInt 0) = Err.
 Proof. exact NumProofs.ex_div_zero. Qed.
+
+(* ---- modulo (the `mod` builtin: IntegerDo/UintegerDo with Modulo) ---- *)
+Theorem mod_zero_is_error : forall a z, (z = NInt 0 \/ z = NUint 0 \/ z = NChar 0) -> mod_do a z = Err.
+Proof. exact NumProofs.mod_zero_is_error. Qed.
+Print Assumptions mod_zero_is_error.
+
+Theorem mod_int_spec : forall x y, y <> 0 ->
+  mod_do (NInt x) (NInt y) = Ok (NInt (x - y * Z.quot x y)).
+Proof. exact NumProofs.mod_int_spec. Qed.
+Print Assumptions mod_int_spec.
+
+Theorem mod_uint_spec : forall x y, 0 <= x -> 0 < y ->
+  mod_do (NUint x) (NUint y) = Ok (NUint (x - y * (x / y))).
+Proof. exact NumProofs.mod_uint_spec. Qed.
+Print Assumptions mod_uint_spec.
+
+Theorem mod_float_is_error : forall a b f, (a = NFloat f \/ b = NFloat f) -> mod_do a b = Err.
+Proof. exact NumProofs.mod_float_is_error. Qed.
+Print Assumptions mod_float_is_error.
+
+Theorem mod_err_iff : forall a b, mod_do a b = Err <->
+  (exists f, a = NFloat f) \/ (exists f, b = NFloat f) \/
+  (match a, b with
+   | NUint _, NInt j | NUint _, NChar j => wrapu64 j = 0
+   | _, NInt j | _, NChar j | _, NUint j => j = 0
+   | _, _ => False end).
+Proof. exact NumProofs.mod_err_iff. Qed.
+Print Assumptions mod_err_iff.
+
+Example ex_mod_uint_zero : mod_do (NUint 5) (NUint 0) = Err.
+Proof. reflexivity. Qed.
+Example ex_mod_neg : mod_do (NInt (-7)) (NInt 2) = Ok (NInt (-1)).
+Proof. reflexivity. Qed.
